@@ -112,6 +112,12 @@ func (e *evalEnv) litOf(fun ast.Expr) *ast.FuncLit {
 	return nil
 }
 
+// mapVal is a read-only map from strings (given by the rule that sets up the evaluation).
+type mapVal struct {
+	entries map[string]Val
+	zero    Val
+}
+
 // funcVal is a function literal held in a variable.
 type funcVal struct{ lit *ast.FuncLit }
 
@@ -227,6 +233,22 @@ func (e *evalEnv) stmt(s ast.Stmt) *returned {
 			if len(x.Rhs) != 1 {
 				undecided("multi-value assignment")
 			}
+			// v, ok := m[k]
+			if ix, isIx := ast.Unparen(x.Rhs[0]).(*ast.IndexExpr); isIx && len(x.Lhs) == 2 {
+				if mv, isMap := e.expr(ix.X).(mapVal); isMap {
+					k, isStr := e.expr(ix.Index).(string)
+					if !isStr {
+						undecided("map key is not a string in %s", types.ExprString(ix))
+					}
+					v, present := mv.entries[k]
+					if !present {
+						v = mv.zero
+					}
+					x = &ast.AssignStmt{Lhs: x.Lhs, Tok: x.Tok, Rhs: x.Rhs}
+					vals = []Val{v, present}
+					goto assign
+				}
+			}
 			tv, ok := e.expr(x.Rhs[0]).(tupleVal)
 			if !ok || len(tv) != len(x.Lhs) {
 				undecided("multi-value assignment from %s", types.ExprString(x.Rhs[0]))
@@ -238,6 +260,7 @@ func (e *evalEnv) stmt(s ast.Stmt) *returned {
 				vals[i] = e.expr(r)
 			}
 		}
+	assign:
 		for i, l := range x.Lhs {
 			id, ok := l.(*ast.Ident)
 			if !ok {
@@ -797,6 +820,17 @@ func (e *evalEnv) expr(x ast.Expr) Val {
 		}
 		undecided("binary %s", x.Op)
 	case *ast.IndexExpr:
+		if mv, isMap := e.expr(x.X).(mapVal); isMap {
+			// a read of a (read-only) map: the entry, or the zero value of the element type
+			k, isStr := e.expr(x.Index).(string)
+			if !isStr {
+				undecided("map key is not a string in %s", types.ExprString(x))
+			}
+			if v, ok := mv.entries[k]; ok {
+				return v
+			}
+			return mv.zero
+		}
 		sl, ok := e.expr(x.X).(sliceVal)
 		ix, ok2 := e.expr(x.Index).(*big.Int)
 		if !ok || !ok2 || ix.Sign() < 0 || ix.Int64() >= int64(len(sl)) {
